@@ -25,7 +25,7 @@ def sh(cmd, **kw):
     return subprocess.run(cmd, shell=True, capture_output=True, text=True, **kw)
 log = sh(f"git -C {REPO} log --reverse --format='%h\t%s' c85060a..HEAD").stdout.strip().splitlines()
 only = sys.argv[1:] 
-results = []
+results = json.load(open('/verif/seeded/fix-reverts.json')) if os.path.exists('/verif/seeded/fix-reverts.json') else []
 os.makedirs(OUT, exist_ok=True)
 for line in log:
     h, subj = line.split("\t", 1)
@@ -41,7 +41,7 @@ for line in log:
         # fall back to applying the reverse diff
         r = sh(f"git -C {REPO} diff {h} {h}^ | git -C {REPO} apply")
         if r.returncode != 0:
-            results.append({"commit": h, "subject": subj, "error": "cannot revert cleanly: " + r.stderr[:200]})
+            results = [r for r in results if r.get('commit') != h] + [{"commit": h, "subject": subj, "error": "cannot revert cleanly: " + r.stderr[:200]}]
             sh(f"git -C {REPO} reset -q --hard HEAD")
             continue
     entry = {"commit": h, "subject": subj, "checks": {}}
@@ -56,7 +56,7 @@ for line in log:
         entry["checks"][c] = {"exit": p.returncode, "violations": len(viol), "first": (keys[0][:300] if keys else ""), "wall_s": round(time.time() - t0, 1)}
         print(h, c, "exit", p.returncode, (keys[0][:160] if keys else ""), flush=True)
     sh(f"git -C {REPO} reset -q --hard HEAD")
-    results.append(entry)
+    results = [r for r in results if r.get('commit') != h] + [entry]
     json.dump(results, open("/verif/seeded/fix-reverts.json", "w"), indent=1)
 shutil.rmtree(OUT, ignore_errors=True)
 print("done")
